@@ -17,7 +17,7 @@ PREF = {"stop", "err", "readahead", "outcome"}
 
 def run(ctx):
     q = ctx.quick()
-    P.model_check(ctx, ["Pbf_stop_q.cfg"] if q else ["Pbf_stop.cfg", "Pbf_stop_big.cfg"])
+    P.model_check(ctx, ["Pbf_stop_q.cfg"] if q else ["Pbf_stop.cfg", "Pbf_stop_both.cfg", "Pbf_stop_big.cfg"])
     P.model_must_fail(ctx, "Pbf_pinned_loop.cfg", "ReadAheadInv")
     P.model_must_fail(ctx, "Pbf_pinned_err.cfg", "ErrPrecedenceInv")
     P.model_must_fail(ctx, "Pbf_pinned_eof.cfg", "ErrPrecedenceInv")
@@ -40,7 +40,7 @@ def run(ctx):
     ctx.tick("model_check")
     configs, stop, plain = P.gen_walk_space(ctx)
     rng = random.Random(ctx.seed)
-    nw = 300 if q else 5000
+    nw = 300 if q else 15000
     cases = []
     for i in range(nw):
         ext = rng.random() < 0.5
@@ -58,7 +58,7 @@ def run(ctx):
     P.confirm(ctx, cases, recs, bad, PREF, lambda cs: P.run_pipe(ctx, cs, shards=1))
     ctx.tick("judge")
     # race clause + leak check: real concurrency, cancel from a second goroutine
-    nj = 60 if q else 600
+    nj = 60 if q else 1500
     jit = []
     for i in range(nj):
         ext = rng.random() < 0.6
